@@ -435,3 +435,18 @@ Proof.
     destruct (copy_all_total channel_copy wf_chan channel_copy_total_wf channel_copy_frame wf_chan_agree wf_chan_bounded _ _ (wf_chans _ W)) as (r & Er).
     rewrite Er. simpl. eexists. reflexivity.
 Qed.
+
+(* ---- HeapWf depends only on the tracked cells: client steps and getter calls keep it ---- *)
+
+Lemma HeapWf_agree h h' s : (forall x, In x (live_objs h s) -> hget h' x = hget h x) -> HeapWf (mkWorld h s) -> HeapWf (mkWorld h' s).
+Proof.
+  intros A W.
+  assert (Ar : forall r, In r (roots s) -> forall x, In x (reach h r) -> hget h' x = hget h x).
+  { intros r Hr x Hx. apply A. change (In x (creach h (roots s))). apply in_creach. eauto. }
+  assert (Er : forall r, In r (roots s) -> reach h' r = reach h r).
+  { intros r Hr. apply reach_same_cell. apply (Ar r Hr). apply reach_self. }
+  constructor; cbn [w_heap w_st].
+  - intros o Ho. eapply wf_user_agree; [apply Ar; apply in_roots; left; exact Ho|apply (wf_users _ W); exact Ho].
+  - intros o Ho. eapply wf_chan_agree; [apply Ar; apply in_roots; right; exact Ho|apply (wf_chans _ W); exact Ho].
+  - intros r1 r2 x H1 H2 X1 X2. rewrite (Er r1 H1) in X1. rewrite (Er r2 H2) in X2. exact (wf_sep _ W r1 r2 x H1 H2 X1 X2).
+Qed.
